@@ -18,7 +18,8 @@ PI_HI = Fraction(3141592653589793238462643383280, 10 ** 30)      # > π
 SLACK = Fraction(1, 10 ** 13)        # float slack of the tolerance tests (det / RᵀR rounding ≲ 1e-15)
 
 RULE = ("cases by kind: hatvee (exact), se3 (inverse / relative / so3 block; exact on the signed-permutation × dyadic grid, "
-        "tolerance 64·2⁻⁵³·magnitude on random poses with translations 1e-6..1e9), sim3 (scales 1e-4..1e4), member (is_so3/is_se3/is_sim3 on "
+        "tolerance 64·2⁻⁵³·magnitude on random poses with translations 1e-6..1e9; independent pairs and close pairs B = A·D: steps 1e-6..10 m at offsets "
+        "up to 1e9, turns 1e-12..1e-5 rad, one-ulp changes, exact dyadic steps at offsets up to 2^33), sim3 (scales 1e-4..1e4), member (is_so3/is_se3/is_sim3 on "
         "group elements, reflections, scaled/sheared/bottom-row variants and near-misses on both sides of each effective tolerance; decisions "
         "compared exactly when the model margin exceeds 1e-13), angle (pairs+triples: model (cos, sin²) core vs so3_log_angle), explog (so3_exp vs "
         "exact Rodrigues matrix with 200-bit sinc/cosc coefficients; so3_log through exp(log R) = R and ‖log R‖ ≤ π); "
@@ -197,6 +198,9 @@ def gen_cases(ctx):
             if r.random() < 0.15:
                 b = [list(row) for row in a]
         yield {"kind": "se3", "grid": grid, "a": a, "b": b}
+    # close pairs: B = A·D with a small motion D (every two-argument function must see A ≈ B, A ≠ B)
+    for _ in range(150 * k):
+        yield close_pair(r)
     for _ in range(120 * k):
         grid = r.random() < 0.25
         if grid:
@@ -224,6 +228,42 @@ def gen_cases(ctx):
         yield {"kind": "explog", "v": [a * th for a in ax]}
     for _ in range(60 * k):
         yield {"kind": "log", "R": any_rot(r)[0]}
+
+
+def close_pair(r):
+    how = r.choice(["grid-step", "grid-step", "grid-turn", "step", "step", "turn", "step+turn", "ulp"])
+    if how.startswith("grid"):
+        # exact grid: same signed-permutation rotation, dyadic translations of size 2^e, tiny dyadic step (A⁻¹B exact)
+        R = perm_rot(r)
+        e = r.randint(0, 30)
+        t = [float(r.randint(-8, 8) * 2 ** e + r.randint(-64, 64)) / r.choice([1, 2, 4]) for _ in range(3)]
+        a = to4(R, t)
+        if how == "grid-step":
+            step = [0.0, 0.0, 0.0]
+            for i in r.sample(range(3), r.randint(1, 3)):
+                step[i] = r.randint(-16, 16) / r.choice([1, 2, 4, 64, 1024])
+            if step == [0.0, 0.0, 0.0]:
+                step[0] = 0.25
+            b = to4(R, [x + d for x, d in zip(t, step)])
+        else:
+            b = to4((np.array(R) @ np.array(perm_rot(r))).tolist(), t)
+        return {"kind": "se3", "grid": True, "close": how, "a": a, "b": b}
+    R = any_rot(r)[0]
+    mag = 10.0 ** r.uniform(0, 9)
+    t = [r.uniform(-1, 1) * mag for _ in range(3)] if r.random() < 0.85 else [0.0, 0.0, 0.0]
+    a = np.array(to4(R, t))
+    if how == "ulp":
+        b = a.copy()
+        i, j = r.randrange(3), r.randrange(4)
+        b[i, j] = np.nextafter(b[i, j], r.choice([-np.inf, np.inf]))
+    else:
+        D = np.eye(4)
+        if "turn" in how:
+            D[:3, :3] = np.array(axis_angle_rot(unit_axis(r), 10.0 ** r.uniform(-12, -5)))
+        if "step" in how:
+            D[:3, 3] = np.array(unit_axis(r)) * 10.0 ** r.uniform(-6, 1)
+        b = a @ D
+    return {"kind": "se3", "grid": False, "close": how, "a": a.tolist(), "b": b.tolist()}
 
 
 def member_case(r):
@@ -547,6 +587,11 @@ def judge_se3(ctx, case, impl, outs):
         else:
             continue
         break
+    if exact and a != b:
+        if rel == eye(4):
+            ctx.fail(case, "relative-identity-only-for-equal", "relative_se3(A, B) is exactly I although A ≠ B (exact-grid input)")
+        if F(impl["relso3"]) == eye(3) and [row[:3] for row in a[:3]] != [row[:3] for row in b[:3]]:
+            ctx.fail(case, "relative-identity-only-for-equal", "relative_so3(A, B) is exactly I although A ≠ B (exact-grid input)")
     ra, rb = [row[:3] for row in a[:3]], [row[:3] for row in b[:3]]
     d = mdiff(mmul(ra, F(impl["relso3"])), rb)
     if d > rt:
@@ -556,6 +601,8 @@ def judge_se3(ctx, case, impl, outs):
     if not impl["unchanged"]:
         ctx.fail(case, "inputs-unmodified", "se3_inverse/relative_se3 changed an argument")
     ctx.count("branch", "se3-grid" if exact else "se3-random")
+    if case.get("close"):
+        ctx.count("dist", "close-pair:" + case["close"])
     ctx.count("dist", "translation-1e%+d" % (0 if tin == 0 else int(math.floor(math.log10(float(tin))))))
     ctx.record(case, case["a"] != case["b"])
 
@@ -573,7 +620,7 @@ def judge_sim3(ctx, case, impl, outs):
         return
     m_inv, m_is, m_is_s, m_det = parse(outs[1]), outs[2].split(), outs[3].split(), core.parse_rat(outs[4])
     # certificate for the scale evo computed: s³ = det
-    if abs(frac(sc) ** 3 - m_det) > U * abs(m_det):
+    if abs(frac(sc) ** 3 - m_det) > 32 * U * abs(m_det):       # LU determinant + cube root: a few dozen ulp
         ctx.mismatch(case, "sim3_scale³ differs from the determinant of the block", sc, str(m_det))
     cmp_pose(ctx, case, "sim3_inverse", impl["inv"], m_inv, 1 / frac(sc) ** 2, tin, exact=False)
     for key, mo in (("is_sim3", m_is), ("is_sim3_s", m_is_s)):
@@ -616,7 +663,7 @@ def judge_member(ctx, case, impl, outs):
         ctx.skipped += 1
     if len(outs) > 3:
         m_sim = outs[3].split()
-        if case["s"] is None and math.isfinite(impl["scale"]) and abs(frac(impl["scale"]) ** 3 - m_det) > U * abs(m_det):
+        if case["s"] is None and math.isfinite(impl["scale"]) and abs(frac(impl["scale"]) ** 3 - m_det) > 32 * U * abs(m_det):
             ctx.mismatch(case, "sim3_scale³ differs from the determinant", impl["scale"], str(m_det))
         if core.parse_rat(m_sim[1]) > SLACK:
             if impl["sim3"] != (m_sim[0] == "1"):
@@ -669,7 +716,7 @@ def judge_angle(ctx, case, impl, outs):
         ctx.mismatch(case, "so3_log_angle(degrees=True) is not the angle in degrees", impl["deg"], math.degrees(ref))
     # ---- oracle: metric axioms on evo's own values
     for key in ("ab", "ba", "bc", "ac", "aa", "left", "right"):
-        if not (0.0 <= impl[key] <= math.pi + 4e-16):
+        if not (0.0 <= impl[key] <= math.pi + 1e-15):      # float(π) + 2 ulp: rounding of 2·atan2 at angle π
             ctx.fail(case, "angle-range", f"angle {key} = {impl[key]!r} outside [0, π]")
     if abs(impl["ab"] - impl["ba"]) > atol:
         ctx.fail(case, "angle-symmetric", f"d(A,B) = {impl['ab']!r}, d(B,A) = {impl['ba']!r}")
@@ -779,7 +826,7 @@ def shrink(case):
             if [row[:3] for row in m[:3]] != I:
                 c = dict(case); c[key] = [I[i] + [m[i][3]] for i in range(3)] + [m[3]]
                 yield c
-            c = dict(case); c[key] = [[float(round(x)) for x in row] for row in m]
+            c = dict(case); c[key] = [m[i][:3] + [float(round(m[i][3]))] for i in range(3)] + [m[3]]   # rotation block untouched
             if c[key] != m:
                 yield c
     elif k == "sim3":
